@@ -428,11 +428,13 @@ theorem runLexs_P (P : FErr → Prop) (hP : ∀ e : FErr, bad e.err = false → 
             simp only at h
             split at h
             · injection h with h; subst h; exact hP _ rfl
-            · cases hv : validName (d.slice p.b p.e1) with
+            · split at h
+              · injection h with h; subst h; exact hP _ rfl
+              · cases hv : validName (unescape (d.slice p.b p.e1)) with
               | error x => simp only [hv] at h; injection h with h; subst h; exact hP _ rfl
               | ok u =>
                 simp only [hv] at h
-                cases hfd : fs.find (pathJoin (pathDir name) (d.slice p.b p.e1)) with
+                cases hfd : fs.find (pathJoin (pathDir name) (unescape (d.slice p.b p.e1))) with
                 | none => simp only [hfd] at h; injection h with h; subst h; exact hP _ rfl
                 | some gc =>
                   rcases gc with ⟨g, c⟩
